@@ -204,7 +204,7 @@ def menu(info, level):
     if level in ('full', 'quick'):
         subsets = all_subsets(n) if n <= 6 else subset_family(n)
     elif level == 'core':
-        subsets = all_subsets(n) if n <= 6 else subset_family(n)[:4]
+        subsets = all_subsets(n) if n <= 4 else ([[i] for i in range(n)] + [list(range(n))]) if n <= 6 else subset_family(n)[:4]
     else:
         subsets = [[0]]
     for s in subsets:
